@@ -34,6 +34,12 @@ CLAIMED = {
                      "(FIFO, at most once, nothing lost), one task at a time, a sleeping worker implies empty queue and no abort (no lost wake-up), nothing starts after abort and the worker exits within "
                      "one task return and one check. Tie: histories of the real scheduler under thousands of controlled schedules (random, PCT, DFS, spurious wake-ups) must be linearisations accepted "
                      "by the extracted transition system; thread affinity and worker liveness at quiescence are read off the runtime."),
+    "C18": dict(engine="coq-conc", design="DESIGN.md 6 C18",
+                technique="machine-checked proof in Coq (invariant + bounded-progress lemma of a poller/source transition system over all interleavings) + correspondence under a deterministic scheduling runtime (result and poll count within the model's exhaustively explored outcome set)",
+                text="Theorems C18_result / C18_no_lost_wakeup / C18_eventually_ready: in the to_vec model (waker lock held across the done test and the store; done set before the waker is read) every interleaving, "
+                     "with any number of spurious re-polls, yields Ready only after the source terminated, with the source's error or all its items in order; a parked poller always has a token pending "
+                     "once the source has finished and reaches Ready within three of its own steps. Tie: the real to_vec is awaited by a minimal parking executor under thousands of controlled schedules; "
+                     "result, termination and poll count must lie within the outcomes of the extracted model explored exhaustively."),
     "C19": dict(engine="coq-conc", design="DESIGN.md 6 C19",
                 technique="machine-checked proof in Coq (invariant of a transition system at critical-section granularity, for any number of threads, any call lists, any interleaving) + correspondence under a deterministic scheduling runtime (exhaustive DFS / random / PCT schedules; implementation log set within the model's explored log set)",
                 text="Theorems C19_at_most_one_terminal / C19_nothing_started_after_terminal_returned / C19_slots_empty_after_terminal: in the gate model of Observer "
